@@ -4,7 +4,6 @@ import (
 	"encoding/json"
 	"fmt"
 	"math/rand"
-	"os"
 	"strings"
 	"time"
 
@@ -105,7 +104,7 @@ func c07Scenario(u *Unit, name string, sh c07Shape, fault *c07Fault) (*Tracker, 
 		case "auto_crash":
 			s.W.Crash(master)
 		case "auto_rofs":
-			_ = os.WriteFile(s.Dir+"/"+master+".ro", []byte("true"), 0o644)
+			s.SetROFS(master, true)
 		}
 		// wait for the fault to hit (or, in the baseline, for the request to finish)
 		hitAt := time.Time{}
@@ -157,7 +156,7 @@ func c07Scenario(u *Unit, name string, sh c07Shape, fault *c07Fault) (*Tracker, 
 		}
 		if sh.Req == "auto_rofs" {
 			time.Sleep(60 * time.Second)
-			_ = os.WriteFile(s.Dir+"/"+master+".ro", []byte("false"), 0o644)
+			s.SetROFS(master, false)
 		}
 		// bounded convergence after the successor started
 		ok := false
